@@ -84,16 +84,16 @@ def ref_eval(text):
     return outs
 
 
-def same(a, b):
+def same(a, b, strict=False):
+    """equal value and equal type (recursively); nan equals nan. strict: the sign of zero counts too
+    (used only to attribute blame to the deepest culprit, never for the verdict)."""
     if type(a) is not type(b):
         return False
     if isinstance(a, (list, tuple)):
-        return len(a) == len(b) and all(same(x, y) for x, y in zip(a, b))
-    if a == b:
-        return True
+        return len(a) == len(b) and all(same(x, y, strict) for x, y in zip(a, b))
     if isinstance(a, (float, complex)):
-        return repr(a) == repr(b)  # nan == nan
-    return False
+        return repr(a) == repr(b) if strict else (a == b or repr(a) == repr(b))
+    return a == b
 
 
 def vkey(v):
@@ -319,7 +319,7 @@ def run_engine(text, mode, tool=False):
     return False, r.error, (r.pathway.value if r.pathway is not None else None)
 
 
-def verdict(refs, ok, val, pw):
+def verdict(refs, ok, val, pw, strict=False):
     """None if acceptable, else (kind, expected description)"""
     if not ok:
         return None
@@ -330,7 +330,7 @@ def verdict(refs, ok, val, pw):
             exp.append(f"Python raises {rv}")
             continue
         want = bool(rv) if logic else rv
-        if same(val, want):
+        if same(val, want, strict):
             return None
         exp.append(f"Python gives {short(want)} ({type(want).__name__})" + (" after bool coercion" if logic else ""))
     kind = "accepts-what-python-rejects" if all(k == "exc" for k, _ in refs) else "wrong-value"
@@ -342,7 +342,7 @@ BOOL_WORDS = ("True", "False", "true", "false")
 
 def _math_mismatch(sub, tool=False):
     ok, val, pw = run_engine(sub, "math", tool)
-    return verdict(ref_eval(sub), ok, val, pw) is not None
+    return verdict(ref_eval(sub), ok, val, pw, strict=True) is not None
 
 
 def _kids(node):
